@@ -596,6 +596,24 @@ func checkClassSurvives(c *Ctx) {
 		}
 	}
 	sites, _, _ := notSupportedCensus(c)
+	// a verdict made by a constructor helper (newNotSupportedError(cause)) is attributed by the census to the constructor's
+	// callers: a surviving class of the constructor's own literal stands for them
+	for _, st := range sites {
+		if st.fn == nil || got[core.FuncName(st.fn)] {
+			continue
+		}
+		for _, b := range st.fn.Blocks {
+			for _, in := range b.Instrs {
+				call, ok := in.(*ssa.Call)
+				if !ok || call.Pos() != st.pos || call.Common().StaticCallee() == nil {
+					continue
+				}
+				if got[core.FuncName(call.Common().StaticCallee())] {
+					got[core.FuncName(st.fn)] = true
+				}
+			}
+		}
+	}
 	done := map[string]bool{}
 	for _, st := range sites {
 		fn := core.FuncName(st.fn)
